@@ -897,7 +897,7 @@ func main() {
 	scratch := filepath.Join(abs, "scratch")
 	rng := o.Rng()
 	res := hx.NewResult("C18", "1..5 Ingresses on 2 hosts / 6 paths / 2 application services (paths of several Ingresses share backends), each Ingress annotated with nothing | auth-url (well-formed http/https/svc to IP literals, localhost or services; unresolvable names; unknown protocol; missing port or service; malformed; junk) | oauth (valid/invalid implementation, custom prefix, with or without an exposed oauth2 path) | both; placement absent/backend/frontend/odd; auth-proxy ranges default, 1, 2, 3 ports, empty, invalid; external haproxy with/without lua; one path type per case; plus sequences of updater calls in a fixed order; non-trivial = at least one path with declared external authentication; distinct by canonical JSON of the input")
-	cw := hx.NewCaseWriter(o, res, "From HI Require Import Corr.Corr_C18.", "ucase", 200)
+	cw := hx.NewCaseWriter(o, res, "From HI Require Import Corr.Corr_C18.", "ucase", 80)
 	var inputs []input
 	if o.Replay != "" {
 		var in input
@@ -911,7 +911,7 @@ func main() {
 		}
 		inputs = append(inputs, corpus()...)
 		inputs = append(inputs, updaterCorpus()...)
-		np, nu := o.Count(1200, 12000), o.Count(1000, 10000)
+		np, nu := o.Count(1200, 12000), o.Count(800, 8000)
 		if o.Search {
 			np, nu = 12000, 6000
 		}
